@@ -230,29 +230,30 @@ def ob_pure(mod):
         s = np.empty(2, dtype=object)
         a0, a1, b0, b1 = (c.var(n, "real") for n in ("a0", "a1", "b0", "b1"))
         c.inputs.update(first_snr_dB=[a0, a1], second_snr_dB=[b0, b1])
-        for meth in ("calcTheoreticalSER", "calcTheoreticalBER", "calcTheoreticalSpectralEfficiency"):
+        for meth, extra in (("calcTheoreticalSER", ()), ("calcTheoreticalBER", ()), ("calcTheoreticalSpectralEfficiency", ()),
+                            ("calcTheoreticalPER", (3,)), ("calcTheoreticalSpectralEfficiency", (3,))):
             s[0], s[1] = a0, a1
-            r1 = _call(it, o, meth, s)
+            r1 = _call(it, o, meth, s, *extra)
             ok = isinstance(r1, np.ndarray) and r1.shape == (2,)
-            goals.append(Goal("%s first call shape" % meth, ok))
+            goals.append(Goal("%s%s first call shape" % (meth, extra), ok))
             if not ok:
                 continue
             first = [r1[0], r1[1]]
             goals.append(Goal("%s: caller's array untouched" % meth, s[0] is a0 and s[1] is a1))
             s[0], s[1] = b0, b1                       # the caller's in-place update (e.g. snr += step)
-            r2 = _call(it, o, meth, s)
+            r2 = _call(it, o, meth, s, *extra)
             ok = isinstance(r2, np.ndarray) and r2.shape == (2,)
             goals.append(Goal("%s second call shape" % meth, ok))
             if not ok:
                 continue
             for i, (old, new) in enumerate(((a0, b0), (a1, b1))):
                 goals.append(Goal("%s[%d] after in-place change == fresh object's value for the new SNR" % (meth, i),
-                                  lift(r2[i]) == _call(it, fresh, meth, new)))
+                                  lift(r2[i]) == _call(it, fresh, meth, new, *extra)))
                 goals.append(Goal("%s[%d] of the first call == fresh object's value for the old SNR" % (meth, i),
-                                  lift(first[i]) == _call(it, fresh, meth, old)))
+                                  lift(first[i]) == _call(it, fresh, meth, old, *extra)))
             # scalar after array, and the same scalar twice
-            goals.append(Goal("%s scalar after array" % meth, lift(_call(it, o, meth, a1)) == _call(it, fresh, meth, a1)))
-            goals.append(Goal("%s other scalar" % meth, lift(_call(it, o, meth, b0)) == _call(it, fresh, meth, b0)))
+            goals.append(Goal("%s scalar after array" % meth, lift(_call(it, o, meth, a1, *extra)) == _call(it, fresh, meth, a1, *extra)))
+            goals.append(Goal("%s other scalar" % meth, lift(_call(it, o, meth, b0, *extra)) == _call(it, fresh, meth, b0, *extra)))
         return goals
 
     def replay(mv):
@@ -264,15 +265,16 @@ def ob_pure(mod):
                 B = [A[0] + 3.0, A[1] - 5.0]
             out = {"first_snr_dB": A, "second_snr_dB (same array, changed in place)": B}
             bad = False
-            for meth in ("calcTheoreticalSER", "calcTheoreticalBER", "calcTheoreticalSpectralEfficiency"):
+            for meth, extra in (("calcTheoreticalSER", ()), ("calcTheoreticalBER", ()), ("calcTheoreticalSpectralEfficiency", ()),
+                                ("calcTheoreticalPER", (3,)), ("calcTheoreticalSpectralEfficiency", (3,))):
                 o = mk()
                 arr = np.array(A)
-                r1 = np.array(getattr(o, meth)(arr), dtype=float).copy()
+                r1 = np.array(getattr(o, meth)(arr, *extra), dtype=float).copy()
                 arr[:] = B
-                r2 = np.array(getattr(o, meth)(arr), dtype=float)
-                want1 = np.array(getattr(mk(), meth)(np.array(A)), dtype=float)
-                want2 = np.array(getattr(mk(), meth)(np.array(B)), dtype=float)
-                out[meth] = {"second call": r2.tolist(), "fresh object": want2.tolist()}
+                r2 = np.array(getattr(o, meth)(arr, *extra), dtype=float)
+                want1 = np.array(getattr(mk(), meth)(np.array(A), *extra), dtype=float)
+                want2 = np.array(getattr(mk(), meth)(np.array(B), *extra), dtype=float)
+                out[meth + str(extra)] = {"second call": r2.tolist(), "fresh object": want2.tolist()}
                 bad = bad or not np.allclose(r2, want2, rtol=1e-12, atol=0) or not np.allclose(r1, want1, rtol=1e-12, atol=0)
             out["confirmed"] = bool(bad)
             return out
